@@ -78,6 +78,66 @@ def cand_payload(t):
     return False
 
 
+def closure_subst(t, captured):
+    """term of a closure body rewritten into its creator's terms: `(*arg1).N` -> the N-th captured term"""
+    if not isinstance(t, tuple) or not t:
+        return t
+    if t[0] == 'field' and isinstance(t[2], str) and t[2].isdigit():
+        b = strip(t[1])
+        if b[0] == 'arg' and b[1] == 1 and int(t[2]) < len(captured):
+            return captured[int(t[2])]
+    out = []
+    for x in t:
+        if isinstance(x, tuple):
+            out.append(closure_subst(x, captured))
+        elif isinstance(x, list):
+            out.append([closure_subst(y, captured) if isinstance(y, tuple) and y and isinstance(y[0], str) else
+                        ((y[0], closure_subst(y[1], captured)) if isinstance(y, tuple) and len(y) == 2 and isinstance(y[1], tuple) else y) for y in x])
+        else:
+            out.append(x)
+    return tuple(out)
+
+
+def phi_defs(f, t):
+    """[(block, term)] of the whole definitions of the multi-definition local behind a phi term, else None"""
+    t0 = strip(t)
+    if t0[0] != 'phi':
+        return None
+    l = t0[1]
+    out = []
+    for d in f.defs().get(l, ()):
+        if d[0] == 'assign' and d[4]:
+            return None
+        if d[0] == 'call' and d[3]:
+            return None
+        for ll, tt in f.defs_in_block(d[1]):
+            if ll == l:
+                out.append((d[1], tt))
+    return out
+
+
+def under_no_filter_branch(f, bb):
+    """bb runs only when `opt.candidates` is None (edge-dominated by the None edge of a match on it)"""
+    for s, x, e in paths.controlling_conds(f, bb):
+        if not paths.edge_dominates(f, s, x, bb):
+            continue
+        if e[0] == 'disc' and e[1][0] == 'discr' and cand_payload(e[1][1]) and strip(e[1][1])[0] == 'field':
+            sw = paths.switch_at(f, s)
+            listed = [int(v) for v, tg in sw['targets']]
+            if (0 in e[2]) or (e[3] and 1 in listed and 0 not in listed):
+                return True
+    return False
+
+
+def _contains_filter(t, id_ok, captured=None):
+    """t is `candidates.contains(id)` on the caller's filter, with id_ok(id term)"""
+    t0 = strip(t)
+    if t0[0] == 'call' and t0[1].endswith('RoaringBitmap>::contains') and len(t0[2]) == 2:
+        recv = closure_subst(t0[2][0], captured) if captured is not None else t0[2][0]
+        return cand_payload(recv) and id_ok(t0[2][1])
+    return False
+
+
 def r_filter(ctx, tv, rule='S4-FILTER'):
     """every value entering the candidate list is guarded by the filter or sits under the no-filter branch"""
     F = ctx.F
@@ -85,6 +145,52 @@ def r_filter(ctx, tv, rule='S4-FILTER'):
     adds = tv.adds_to_nns()
     ctx.floor(rule, 'writes to the candidate list', len(adds), 3)
     n = 0
+
+    def popped(t):
+        return paths.mentions_call(t, tv.pop.bb)
+
+    def pushes_popped_id(arg):
+        pv = strip(arg)
+        return (pv[0] == 'call' and pv[1].endswith('NodeId::unwrap_item') and popped(pv)) or (pv[0] == 'field' and pv[2] == 'item' and popped(pv))
+
+    def bool_guard(cond, truth, arg):
+        """the boolean `cond == truth` implies (no filter) or (filter contains the pushed id)"""
+        m = strip(cond)
+        if not truth:
+            return None
+        if _contains_filter(m, popped) and pushes_popped_id(arg):
+            return 'guarded by candidates.contains(item)'
+        if m[0] == 'call' and m[1].endswith('::map_or') and cand_payload(m[2][0]) and const_eval(m[2][1]) == 1:
+            clo = strip(m[2][2])
+            if clo[0] == 'closure' and F.fn(clo[1]) is not None:
+                g = F.fn(clo[1])
+                rets = paths.ret_assigns(g)
+                caps = list(clo[2])
+
+                def id_ok(t):
+                    # the closure tests the popped node's id: a capture that comes from the pop
+                    tt = closure_subst(t, caps)
+                    return popped(tt)
+                okc = bool(rets) and all(
+                    strip(t)[0] == 'call' and strip(t)[1].endswith('RoaringBitmap>::contains') and strip(strip(t)[2][0])[0] == 'arg' and strip(strip(t)[2][0])[1] == 2 and id_ok(strip(t)[2][1])
+                    for b, k, t in rets)
+                if okc and pushes_popped_id(arg):
+                    return 'guarded by candidates.map_or(true, |c| c.contains(item))'
+        pd = phi_defs(f, m)
+        if pd:
+            good = True
+            for b, t in pd:
+                if const_eval(t) == 1 and under_no_filter_branch(f, b):
+                    continue
+                if const_eval(t) == 0:
+                    continue
+                if _contains_filter(t, popped):
+                    continue
+                good = False
+            if good and pushes_popped_id(arg):
+                return 'guarded by a flag that is `candidates.contains(item)` when a filter is given'
+        return None
+
     for c in adds:
         n += 1
         key = '%s/add#%d' % (f.path, n)
@@ -94,37 +200,23 @@ def r_filter(ctx, tv, rule='S4-FILTER'):
         for s in walk(arg):
             if s[0] == 'call' and s[1].endswith(('BitAnd::bitand',)) and any(cand_payload(a) for a in s[2]):
                 why = 'intersection with the filter'
+            # (a') an iterator filtered by `|id| candidates.contains(*id)`
+            if s[0] == 'call' and s[1].endswith('Iterator::filter') and len(s[2]) == 2 and s is strip(arg):
+                clo = strip(s[2][1])
+                if clo[0] == 'closure' and F.fn(clo[1]) is not None:
+                    g = F.fn(clo[1])
+                    rets = paths.ret_assigns(g)
+                    caps = list(clo[2])
+                    if rets and all(_contains_filter(t, lambda i: root(i)[0] == 'arg' and root(i)[1] == 2, caps) for b, k, t in rets):
+                        why = 'iterator filtered by candidates.contains'
+        if why is None and under_no_filter_branch(f, c.bb):
+            why = 'under the no-filter (candidates == None) branch'
         if why is None:
             for s, x, e in paths.controlling_conds(f, c.bb):
                 if not paths.edge_dominates(f, s, x, c.bb):
                     continue
-                if e[0] == 'disc' and e[1][0] == 'discr' and cand_payload(e[1][1]) and strip(e[1][1])[0] == 'field':
-                    sw = paths.switch_at(f, s)
-                    listed = [int(v) for v, tg in sw['targets']]
-                    none_edge = (0 in e[2]) or (e[3] and 1 in listed and 0 not in listed)
-                    if none_edge:
-                        why = 'under the no-filter (candidates == None) branch'
-                if e[0] == 'bool' and e[2]:
-                    m = strip(e[1])
-                    if m[0] == 'call' and m[1].endswith('::map_or') and cand_payload(m[2][0]) and const_eval(m[2][1]) == 1:
-                        clo = strip(m[2][2])
-                        if clo[0] == 'closure':
-                            g = F.fn(clo[1])
-                            okc = False
-                            if g is not None:
-                                for b, k, t in paths.ret_assigns(g):
-                                    tt = strip(t)
-                                    if tt[0] == 'call' and tt[1].endswith('RoaringBitmap>::contains') and strip(tt[2][0])[0] == 'arg':
-                                        idt = strip(tt[2][1])
-                                        caps = [strip(x) for x in clo[2]]
-                                        okc = (idt[0] == 'field' and root(idt)[0] == 'arg' and root(idt)[1] == 1
-                                               and any(x[0] == 'field' and (x[2] == 'item' or any(y[0] == 'field' and y[2] == 'item' for y in walk(x)) or True)
-                                                       and paths.mentions_call(x, tv.pop.bb) for x in caps))
-                            if okc:
-                                # the pushed value is the id of that same node
-                                pv = strip(arg)
-                                if pv[0] == 'call' and pv[1].endswith('NodeId::unwrap_item') or (pv[0] == 'field' and pv[2] == 'item'):
-                                    why = 'guarded by candidates.map_or(true, |c| c.contains(item))'
+                if e[0] == 'bool':
+                    why = why or bool_guard(e[1], e[2], arg)
         ctx.check(why is not None, rule, key, c.loc(), why or '',
                   'ids can enter the candidate list of `%s` without passing the caller\'s filter: results outside the filter would be returned (%s)' % (f.path, show(arg)[:100]))
 
@@ -495,11 +587,22 @@ def r_scoring(ctx, tv, rule='S8-SCORE'):
         and sorts[0].bb not in tv.loop and tv.dedup.bb not in tv.loop
     ctx.check(good, 'S7-DEDUP', f.path + '/sort-dedup', tv.dedup.loc() if tv.dedup else f.loc(), 'candidates sorted and deduplicated before scoring (each id scored once)',
               'the candidates of `%s` are not sorted+deduplicated before scoring: an item found in several trees would be returned several times' % f.path)
-    bd = [c for c in f.calls() if c.callee.endswith('Distance::built_distance')]
+    # scoring sites: in the function itself (loop form) or in a closure mapped over the candidate list (iterator form)
+    bd = [(c, f, None, None) for c in f.calls() if c.callee.endswith('Distance::built_distance')]
+    for mc in f.calls():
+        if mc.callee.endswith(('Iterator::map', 'Iterator::filter_map', 'Iterator::try_for_each', 'Iterator::for_each', 'Iterator::try_fold', 'Iterator::fold')) and len(mc.args) >= 2:
+            clo = strip(mc.arg_term(len(mc.args) - 1))
+            if clo[0] == 'closure' and F.fn(clo[1]) is not None:
+                g = F.fn(clo[1])
+                for c in g.calls():
+                    if c.callee.endswith('Distance::built_distance'):
+                        bd.append((c, g, list(clo[2]), mc))
     if not ctx.need(len(bd) >= 1, rule, 'D::built_distance call in the scoring loop'):
         return
-    for c in bd:
-        q, l = strip(c.arg_term(0)), c.arg_term(1)
+    for c, g, caps, mc in bd:
+        def up(t):
+            return closure_subst(t, caps) if caps is not None else t
+        q, l = strip(up(c.arg_term(0))), up(c.arg_term(1))
         gets = [s for s in walk(l) if s[0] == 'call' and s[1].endswith('::get') and s[1].startswith('heed::Database')]
         okq = root(q)[0] == 'arg' or root(l)[0] == 'arg'
         okg = False
@@ -510,15 +613,29 @@ def r_scoring(ctx, tv, rule='S8-SCORE'):
             idt = ki[2] if ki else None
         ctx.check(okq and okg, rule, f.path + '/distance-from-live-leaf', c.loc(), 'distance = D::built_distance(query leaf, leaf fetched by Key::item(self.index, id) in the caller txn)',
                   'candidates of `%s` are not scored against the leaf fetched under Key::item(self.index, id) in the caller\'s transaction' % f.path)
-        # pushed as Reverse((OrderedFloat(distance), same id))
-        pushes = [p for p in f.calls() if p.callee.endswith('::push') and paths.mentions_call(p.arg_term(1), c.bb)]
-        okp = False
-        for p in pushes:
-            t = strip(p.arg_term(1))
+
+        def scored_pair(t):
+            t = strip(t)
             if t[0] == 'agg' and t[1].endswith('cmp::Reverse'):
                 inner = strip(t[3][0][1])
-                if inner[0] == 'tuple' and len(inner[1]) == 2 and idt is not None and same(inner[1][1], idt):
-                    okp = any(s[0] == 'agg' and s[1].endswith('OrderedFloat') for s in walk(inner[1][0]))
+                if inner[0] == 'tuple' and len(inner[1]) == 2 and idt is not None and same(up(inner[1][1]), idt):
+                    return any(s[0] == 'agg' and s[1].endswith('OrderedFloat') and paths.mentions_call(s, c.bb) for s in walk(inner[1][0]))
+            return False
+        okp = False
+        if g is f:
+            # pushed as Reverse((OrderedFloat(distance), same id))
+            pushes = [p for p in f.calls() if p.callee.endswith('::push') and paths.mentions_call(p.arg_term(1), c.bb)]
+            okp = any(scored_pair(p.arg_term(1)) for p in pushes)
+        else:
+            # the closure yields Ok(Reverse((OrderedFloat(distance), its own id parameter))) and is mapped over the
+            # deduplicated candidate list; the collected pairs feed the output heap
+            oks = [t for b, k, t in paths.ret_assigns(g) if k == 'ok']
+            okr = bool(oks) and all(scored_pair(dict(strip(t)[3]).get('0')) for t in oks) and strip(idt)[0] == 'arg' and strip(idt)[1] == 2
+            src = strip_all(mc.arg_term(0))
+            oksrc = tv.nns_term is not None and any(x == tv.nns_term for x in walk(src)) and mc.callee.endswith('Iterator::map')
+            heap_src = [h for h in f.calls() if 'BinaryHeap' in h.callee + h.resolved and h.callee.endswith(('From::from', 'FromIterator::from_iter', 'Iterator::collect', 'Extend::extend', 'BinaryHeap::<T>::from'))
+                        and any(paths.mentions_call(h.arg_term(i), mc.bb) for i in range(len(h.args)))]
+            okp = okr and oksrc and bool(heap_src)
         ctx.check(okp, 'S9-OUTPUT', f.path + '/scored-pair', c.loc(), 'Reverse((OrderedFloat(distance), id)) of the same id',
                   'the distance computed in `%s` is not paired with the id it was computed for (or not in a min-first order)' % f.path)
     # the output heap and the bound
